@@ -856,6 +856,7 @@ def check_type_against(
         subst = unify(exp, unquantified, {})
         if subst is None:
             raise GuppyTypeError(TypeMismatchError(node, exp, act, kind))
+        subst = resolve_subst(subst)
         # Check that we have found a valid instantiation for all params
         for i, v in enumerate(free_vars):
             param = act.params[i].name
@@ -961,6 +962,21 @@ def check_num_args(
     raise GuppyTypeError(err)
 
 
+def resolve_subst(subst: Subst) -> Subst:
+    """Resolves the solutions of a substitution against each other.
+
+    Unification may solve variables in terms of each other, e.g. `?T := ?A` and
+    `?A := bool`. Afterwards no solved variable occurs in a solution any more, so a
+    single application of the substitution is enough (this terminates thanks to the
+    occurs check).
+    """
+    for _ in subst:
+        if all(t.unsolved_vars.isdisjoint(subst) for t in subst.values()):
+            break
+        subst = {v: t.substitute(subst) for v, t in subst.items()}
+    return subst
+
+
 def type_check_args(
     inputs: list[ast.expr],
     func_ty: FunctionType,
@@ -978,9 +994,10 @@ def type_check_args(
 
     new_args: list[ast.expr] = []
     comptime_args = iter(func_ty.comptime_args)
+    subst = resolve_subst(subst)
     for inp, func_inp in zip(inputs, func_ty.inputs, strict=True):
         a, s = ExprChecker(ctx).check(inp, func_inp.ty.substitute(subst), "argument")
-        subst |= s
+        subst = resolve_subst(subst | s)
         if InputFlags.Inout in func_inp.flags and isinstance(a, PlaceNode):
             a.place = check_place_assignable(
                 a.place, ctx, a, "able to borrow subscripted elements"
@@ -989,7 +1006,7 @@ def type_check_args(
             comptime_arg = next(comptime_args)
             const = comptime_arg.const.substitute(subst)
             s = check_comptime_arg(a, const, func_inp.ty.substitute(subst), subst)
-            subst |= s
+            subst = resolve_subst(subst | s)
         new_args.append(a)
     assert next(comptime_args, None) is None
 
@@ -1196,13 +1213,7 @@ def check_call(
         )
         raise GuppyTypeInferenceError(err)
 
-    # Unification may have solved variables in terms of each other, e.g. `?T := ?A` and
-    # `?A := bool`. Resolve the solutions against each other (this terminates thanks to
-    # the occurs check)
-    for _ in subst:
-        if all(t.unsolved_vars.isdisjoint(subst) for t in subst.values()):
-            break
-        subst = {v: t.substitute(subst) for v, t in subst.items()}
+    subst = resolve_subst(subst)
 
     # Success implies that the substitution is closed
     assert all(not t.unsolved_vars for t in subst.values())
